@@ -214,7 +214,7 @@ func (c *FnCtx) addObl(st *State, kind, anchor string, goal *Term, pos token.Pos
 	}
 	o := c.addObl1(st, kind, anchor, goal, pos, src)
 	// a postcondition / invariant at a point reached over several merged paths may alternatively be proved path by path
-	if o != nil && o.Status != "trivial" && (kind == "post" || kind == "inv-step" || kind == "inv-init") && st.pc.kind == kApp && st.pc.op == "or" && len(st.pc.args) <= 8 {
+	if o != nil && o.Status != "trivial" && kind != "cover" && st.pc.kind == kApp && st.pc.op == "or" && len(st.pc.args) <= 8 {
 		ts := c.eng.ts
 		for _, d := range st.pc.args {
 			o.Parts = append(o.Parts, ts.Skolemize(ts.Implies(d, goal)))
